@@ -15,10 +15,15 @@ out = ["# Seeded changes against the checks", "",
        "check that does not own crashes), blank = not run. The column of the change's own property is marked with brackets.", "",
        "| change | needs | " + " | ".join(checks) + " |", "|---|---|" + "---|" * len(checks)]
 own_caught = own_total = 0
+neutral = []
 for name in sorted(rows):
     own = name.split('-')[0]
     try:
-        needs = json.load(open('/verif/seeded/%s/meta.json' % name)).get('needs', '')
+        meta = json.load(open('/verif/seeded/%s/meta.json' % name))
+        needs = meta.get('needs', '')
+        if meta.get('neutralised'):
+            neutral.append(name)
+            continue
     except Exception:
         needs = ''
     needs = re.sub(r'\s+', ' ', str(needs))[:110].replace('|', '/')
@@ -34,5 +39,7 @@ for name in sorted(rows):
         own_caught += rows[name][own] == 1
     out.append("| %s | %s | %s |" % (name, needs, " | ".join(cells)))
 out += ["", "Own-property check catches the change: %d of %d." % (own_caught, own_total), ""]
+if neutral:
+    out += ["Not listed: %s -- neutralised by a later `fix:` commit in /repo (see their meta.json): they no longer break the property." % ", ".join(neutral), ""]
 open('/verif/seeded/RESULTS.md', 'w').write("\n".join(out))
 print("own-property caught %d/%d; rows %d" % (own_caught, own_total, len(rows)))
